@@ -48,12 +48,27 @@ Proof.
   destruct (reply sq (rscript w1)) as [r rest]. destruct (check_ack r); [reflexivity|]. destruct (reply sq rest). reflexivity.
 Qed.
 
+(* what GetStatus returns, when it returns a status, is the fixed-offset UAPI reading (eleven words, zero fill beyond
+   the reply's end) of a payload of at least the 2.6.32 size - no field is adjusted on the way, whatever the reply's length *)
+Theorem C16_get_status_result : forall s w ws,
+  (let '(_, _, r, _) := get_status s w in r) = RStatus ws ->
+  exists d, UAPI_MIN_AUDIT_STATUS <= N.of_nat (length d) /\ ws = uapi_read_status d.
+Proof.
+  intros s w ws. unfold get_status. destruct (do_send s w) as [[[s1 w1] sq] f]. destruct f; [discriminate|].
+  destruct (reply sq (rscript w1)) as [r rest]. destruct (check_ack r); [discriminate|].
+  destruct (reply sq rest) as [r2 rest']. destruct r2 as [e|[[ty q] d]]; [discriminate|].
+  destruct (ty =? AuditGet); [|discriminate]. destruct (status_from_wire d) as [ws'|] eqn:E; [|discriminate].
+  intros H. injection H as <-. exists d. rewrite from_wire_spec in E.
+  destruct (N.ltb_spec (N.of_nat (length d)) UAPI_MIN_AUDIT_STATUS) as [L|L]; [discriminate|]. injection E as <-. split; [exact L|reflexivity].
+Qed.
+
 (* FromWireFormat: io.ErrUnexpectedEOF below the 2.6.32 size; otherwise the eleven words
    read at the kernel's offsets, zero where the buffer ends, trailing bytes ignored *)
 Theorem C16_from_wire : forall buf,
   status_from_wire buf = if (N.of_nat (length buf) <? UAPI_MIN_AUDIT_STATUS) then None else Some (uapi_read_status buf).
 Proof. exact from_wire_spec. Qed.
 
+Print Assumptions C16_get_status_result.
 Print Assumptions C16_get_status_request.
 Print Assumptions C16_layout.
 Print Assumptions C16_constants.
